@@ -138,7 +138,7 @@ def run_process(ex, request_bytes, cons, on_terminal, fs=None, env=None, stream=
 MULTIPART_DISPOSITION_PREFIXES = ('form-data; name=', 'form-data', 'form-data; name=a; filename=', 'attachment; filename=', 'x; name=', '')
 
 
-def multipart_request(cons, disp_prefix, target='/form-multipart-enctype-post-method', lens=(2, 2)):
+def multipart_request(cons, disp_prefix, target='/form-multipart-enctype-post-method', lens=(2, 2), eol='\r\n'):
     """POST of one well-framed multipart/form-data part: the Content-Disposition value (a structured prefix + 2 arbitrary printable
     bytes) and the part body (2 arbitrary bytes) are symbolic, the framing is concrete, so the per-part code of the controller is reached"""
     # '-' is excluded from the symbolic bytes: the parser deletes hyphens from every line before comparing it with the boundary
@@ -146,5 +146,6 @@ def multipart_request(cons, disp_prefix, target='/form-multipart-enctype-post-me
     tail = SymStr.fresh('dtail', lens[0], cons, exact_len=lens[0], alphabet=[b for b in range(0x20, 0x7f) if b != 0x2d]) if lens[0] else S('')
     val = SymStr.fresh('pbody', lens[1], cons, exact_len=lens[1], alphabet=[b for b in range(256) if b != 0x2d]) if lens[1] else S('')
     head = 'POST %s HTTP/1.1\r\nContent-Type: multipart/form-data; boundary=QQ\r\n\r\n' % target
-    raw = SymStr.join([S(head + '--QQ\r\nContent-Disposition: ' + disp_prefix), tail, S('\r\n\r\n'), val, S('\r\n--QQ--\r\n')])
+    # eol: line terminator inside the body (browsers send CRLF; bare LF is what hand-written clients send)
+    raw = SymStr.join([S(head + '--QQ' + eol + 'Content-Disposition: ' + disp_prefix), tail, S(eol + eol), val, S(eol + '--QQ--' + eol)])
     return raw, {'dtail': tail, 'pbody': val}
